@@ -12,11 +12,13 @@ import (
 	"fmt"
 	"math"
 	"sort"
+	"sync/atomic"
 	"testing"
 
 	"github.com/welllog/golib/mapz"
 	"pgregory.net/rapid"
 
+	"verif/harness/internal/conc"
 	"verif/harness/internal/pb"
 )
 
@@ -192,4 +194,73 @@ func init() {
 		}
 		return runKeyTypes(c, []string{"", "a", "b", "ab", "\x00", "a\x00"})
 	})
+}
+
+// ---- values that are pointers: callbacks run under the lock
+//
+// GetWithLock, Range and All hand the stored value to a callback while holding the read lock, Map runs its
+// callback under the write lock. With pointer values that is what makes "read both fields" / "update both fields"
+// safe. Goroutines of the first kind check that the two fields of a cell agree, goroutines of the second kind
+// update both fields inside Map; the race detector watches the accesses (a callback that runs outside the lock is
+// reported as a data race, and usually also seen as a torn pair).
+
+type cell struct{ a, b int }
+
+func TestPointerValues(t *testing.T) {
+	st := pb.Stats("safekv_pointer_values")
+	st.SetRule("SafeKV[int,*cell] with 3 keys; 2 goroutines update both fields of the cells inside Map callbacks, 3 goroutines read both fields inside GetWithLock / Range / All callbacks, 300 rounds each, under the race detector; oracle: no data race report, both fields of a cell always agree; every run is a case")
+	n := pb.Scaled(6)
+	for i := 0; i < n; i++ {
+		s := mapz.NewSafeKV[int, *cell](4)
+		for k := 0; k < 3; k++ {
+			s.Set(k, &cell{})
+		}
+		saveCurrent("safekv_pointer_values", []byte(fmt.Sprintf(`{"run":%d}`, i)))
+		var torn atomic.Value
+		check := func(c *cell) {
+			if a, b := c.a, c.b; a != b {
+				torn.CompareAndSwap(nil, fmt.Sprintf("a callback under the read lock saw a cell with fields %d and %d while Map callbacks (write lock) update both together", a, b))
+			}
+		}
+		bodies := []func(){}
+		for w := 0; w < 2; w++ {
+			bodies = append(bodies, func() {
+				for r := 0; r < 300; r++ {
+					s.Map(func(m mapz.KV[int, *cell]) {
+						for _, c := range m {
+							c.a++
+							c.b++
+						}
+					})
+				}
+			})
+		}
+		bodies = append(bodies,
+			func() {
+				for r := 0; r < 300; r++ {
+					s.GetWithLock(r%3, check)
+				}
+			},
+			func() {
+				for r := 0; r < 300; r++ {
+					s.Range(func(_ int, c *cell) bool { check(c); return true })
+				}
+			},
+			func() {
+				for r := 0; r < 300; r++ {
+					s.All()(func(_ int, c *cell) bool { check(c); return true })
+				}
+			})
+		if panics := conc.RunRaced(bodies); len(panics) > 0 {
+			t.Fatalf("panic: %v", panics[0])
+		}
+		js := []byte(fmt.Sprintf(`{"run":%d}`, i))
+		if e := torn.Load(); e != nil {
+			st.Violation("pointer-values", js, fmt.Errorf("%s", e))
+			t.Fatalf("%s", e)
+		}
+		rec := &pb.Rec{}
+		rec.NonTrivial()
+		st.CaseKey(uint64(i)+pb.Seed("ptr"), rec, func() []byte { return js })
+	}
 }
